@@ -782,6 +782,21 @@ def check_C20(ctx):
              'incl. LONG_MIN/LONG_MAX/ULONG_MAX/doubles on either side, op1(op2,op3) over a smaller alphabet, unary wrappers, comparisons/cmp/sgn at the root; quick: a seeded 3000 + 1200), '
              'each compiled against the tree\'s mpirxx.h and evaluated for 4 operand-value classes with assignment to a fresh temporary, to a variable occurring in the tree (every 4th) and as a '
              'compound assignment (every 5th); the printed value must equal CxxSem!EvalZ / EvalQ (= every sub-expression into its own temporary with the C function). Conversions: set_str and '
-             'string constructors (exceptions), get_str in bases 2..62, stream insertion/extraction round trips, fits/get. mpf_class arithmetic is not enumerated (the precision of temporaries '
-             'is an implementation choice). distinct = distinct (tree, target, value class); non-trivial = a tree with at least one operator',
-        explanation='expression trees generated from the grammar, validated against the C-level semantics')
+             'string constructors (exceptions), get_str in bases 2..62, stream insertion/extraction round trips, fits/get. '
+             'mpf_class: 7 050 trees (CxxExpr KIND f: + - * / neg abs sqrt floor ceil trunc, comparisons/cmp/sgn at the root, operands of 64/128/256 bits precision and long/unsigned long/double '
+             'incl. LONG_MIN, ULONG_MAX; quick: all depth-1 + a seeded 1000) x 4 value classes (small exact dyadics, full mantissas, distant exponents, zero) x targets (constructor, assignment to a '
+             'fresh 64- or 512-bit variable, to an operand, compound assignment): the harness evaluates every tree a second time with explicit temporaries and the corresponding C functions, the '
+             'temporaries having the precision the manual states (destination; for constructors and comparison operands the highest operand precision); CxxSemF.tla requires every node of that '
+             'evaluation to satisfy SemF!PostF of its C function (accuracy bound + exactness clause) and the C++ result to equal its root limb for limb with the stated precision. '
+             'Streams (CxxStream.tla, CxxStreamModel.tla): R2 the transcription of the operator<< path (osfuns.cc, osdoprnti.cc, doprnti.c) produces a text the C++ standard\'s num_put layout '
+             '(OstreamLayout: conversion from basefield/showbase/showpos/uppercase, stage-3 padding) admits on 5 basefield x 5 adjustfield states x showbase x showpos x uppercase x width '
+             '{0,1,5,12} x fill {space,*,0} x 12 values (one-limb, LONG_MIN/MAX, multi-limb), and that layout equals C99 printf where printf can express the request; R3/R1 every row is printed '
+             'through mpz_class, twice in a row (width reset), through the standard library on the equal long (text = specification, and MPIR = standard library byte for byte where the '
+             'standard gives the combination a meaning, except hex zero with showbase which the tree\'s own tests state, and octal+showbase+internal padding where both paddings are admitted), '
+             'and through mpq_class (base indicator on both parts, denominator 1 omitted); extraction of mpz_class/mpq_class/long from every string of length <= 3 (thorough 4) over '
+             '{0 1 7 9 a F x X - + space / g tab} and 38 longer inputs x basefield {dec,oct,hex,none} x skipws: status, value (= the C-level grammar SemIO!ParseNum on the consumed field, checked '
+             'in the model), characters consumed, next character, all equal to the standard library reading a long where the manual states no difference; mpf_class extraction (field grammar '
+             'FParse, value within SemF!SetStrOK, double side by side); mpf_class insertion vs the standard library on the equal double (23 values k/2^j x floatfield x 7 precisions x '
+             'showpoint/showpos/uppercase x width/adjustfield) whenever the requested digits represent the value without rounding. '
+             'distinct = distinct (tree, target, value class) or stream row; non-trivial = a tree with at least one operator / a row with at least one flag, width or multi-limb value',
+        explanation='expression trees and stream states/inputs generated by TLC from grammars, validated against the C-level semantics and the C++ standard\'s formatting rules')
